@@ -15,6 +15,9 @@ use owning_iovec::{AnchoredSlice, Backref, ByteArena, OwningIovec};
 use std::io::{IoSlice, Read};
 use std::num::NonZeroUsize;
 
+// public-API completion (track apigaps): further op words, their generator and scripted cases
+mod api;
+
 #[derive(Clone, Copy, PartialEq, Debug)]
 enum Cell {
     Byte(u8),
@@ -295,6 +298,9 @@ impl Exec for IovecExec {
         let mut so = StepOut::default();
         if self.dead_memory {
             return so;
+        }
+        if let Some(r) = self.step_api_tagged(w) {
+            return r;
         }
         let mut touched: Option<usize> = None;
         macro_rules! bad {
@@ -710,7 +716,7 @@ impl Exec for IovecExec {
         // `pop` on an iovec with no stable slice and `backfill` with a stale / foreign / wrong-size
         // token are documented panics; nothing else in this vocabulary may panic.
         match w.first().copied() {
-            Some("pop") | Some("backfill") => None,
+            Some("pop") | Some("sc_pop") | Some("backfill") => None,
             Some(op) => Some(format!("C03 unexpected panic in {}", op)),
             None => None,
         }
@@ -991,6 +997,7 @@ impl Family for IovecFamily {
         let mut cases = self.fill_order_cases(thorough);
         cases.extend(self.ownership_cases());
         cases.extend(self.handoff_cases());
+        cases.extend(api::enumerated_cases());
         cases.extend(vec![
             c(&["new", "register v0 0000", "backfill v0 b0 aa"]),
             c(&["new", "register v0 0000", "backfill v0 b0 aabbcc"]),
@@ -1035,6 +1042,10 @@ impl Family for IovecFamily {
                 g.new_iov();
                 continue;
             };
+            // the public-API completion vocabulary (fam_iovec/api.rs)
+            if g.rng.chance(14, 100) && api::gen_op(&mut g, v) {
+                continue;
+            }
             let roll = g.rng.below(100);
             let (w_reg, w_clone, w_arena) = match profile {
                 1 => (30, 3, 4),
